@@ -180,7 +180,7 @@ func KindOf(d datatype.Type) string {
 		return "i64"
 	case datatype.Float64:
 		return "f64"
-	case datatype.Time:
+	case datatype.Time, *datatype.Time:
 		return "time"
 	case datatype.Address:
 		return "addr"
